@@ -62,8 +62,9 @@ add(fam("2q", q2_shapes(1), Q2_KINDS) + fam("2q", ["s2g1n200", "s2g1n111", "s2g2
     mem=4, quick_for=["C08"])
 add(fam("2q", q2_shapes(2), Q2_KINDS), Q2_STEP, "thorough", 3,
     "TwoQueueCache<u8,u8>: size 2, all 30 (ghost bound, occupancy) shapes; one operation; keys by pattern enumeration", mem=4)
-add(fam("2q", q2_shapes(3, full_only=True), ["put"]), Q2_STEP, "thorough", 4,
-    "TwoQueueCache<u8,u8>: size 3, all full-cache occupancies, put", mem=6, tmul=2)
+add(fam("2q", ["s3g3n300", "s3g3n213", "s3g3n122", "s3g3n033", "s3g3n211", "s3g1n301", "s3g1n121", "s3g2n032"], ["put"]),
+    Q2_STEP, "thorough", 4,
+    "TwoQueueCache<u8,u8>: size 3, eight full-cache occupancies across ghost bounds 1..3, put", mem=6, tmul=2)
 add(fam("2q", q2_shapes(1), ["symkeys_put", "symkeys_look"]), Q2_STEP + ["C17"], "thorough", 3,
     "TwoQueueCache<u8,u8>: size 1 with symbolic pairwise-distinct keys (cross-check of the pattern enumeration)", mem=8)
 
@@ -91,7 +92,7 @@ add(fam("arc", ["s2n2011", "s2n1111", "s2n0211"], ["look", "put"]) + ["h_arc::s2
     "AdaptiveCache<u8,u8>: size 2, full-cache occupancies (2,0,1,1) (1,1,1,1) (0,2,1,1) with look+put, (2,0,2,2) (1,1,2,1) put; "
     "p enumerated 0..=2", mem=6, quick_for=["C09"])
 add(fam("arc", arc_shapes(1), ["bulk"]), ARC_STEP, "thorough", 3, "AdaptiveCache size 1: purge from all 12 occupancies", mem=3)
-add(fam("arc", arc_shapes(2), Q2_KINDS), ARC_STEP, "thorough", 3,
+add(fam("arc", arc_shapes(2), ["look", "put"]) + fam("arc", ["s2n1122", "s2n2000", "s2n0222"], ["bulk"]), ARC_STEP, "thorough", 3,
     "AdaptiveCache<u8,u8>: size 2, all 54 occupancies; one operation; keys by pattern enumeration", mem=8, tmul=2)
 add(fam("arc", ["s1n0000", "s1n1000", "s1n0100", "s1n0010", "s1n0001"], ["symkeys_put", "symkeys_look"]),
     ARC_STEP + ["C17"], "thorough", 3,
@@ -126,11 +127,13 @@ add(fam("wtlfu", wt_shapes((1, 1, 1)), WT_KINDS) + ["h_wtlfu::c111n000::getest"]
     "WTinyLFUCache<u8,u8>: (window,probationary,protected) = (1,1,1), all 8 occupancies; real TinyLFU in an arbitrary "
     "state (2 counters/row, 512-bit doorkeeper, 1..=2 probes, symbolic per-key hashes for put and the estimator-effect "
     "harness); one operation; keys by pattern enumeration", mem=6, quick_for=["C10"])
-add(fam("wtlfu", wt_shapes((2, 1, 1)) + wt_shapes((1, 2, 1)) + wt_shapes((1, 1, 2)), ["put", "get", "peek"]) +
+add(fam("wtlfu", ["c211n211", "c211n111", "c211n210", "c121n121", "c121n111", "c121n021", "c112n112", "c112n111", "c112n102"],
+        ["put", "get", "peek"]) +
     fam("wtlfu", ["c222n221", "c222n222"], ["put", "peek"]) +
     ["h_wtlfu::c111n100::getest", "h_wtlfu::c111n010::getest", "h_wtlfu::c111n001::getest"],
     WT_STEP, "thorough", 3,
-    "WTinyLFUCache<u8,u8>: capacities (2,1,1),(1,2,1),(1,1,2) all occupancies and (2,2,2) with full segments", mem=8, tmul=2)
+    "WTinyLFUCache<u8,u8>: capacities (2,1,1),(1,2,1),(1,1,2) with three occupancies each (full, one list short) and (2,2,2) "
+    "with full segments; estimator effect of get on the three one-entry shapes", mem=8, tmul=2)
 
 # ---- constructors / conversions ------------------------------------------------------------------
 add(["h_ctor::raw_all_constructors", "h_ctor::sampled_constructors", "h_ctor::tinylfu_ctor_invalid",
@@ -212,3 +215,10 @@ add(["h_tlfu::r2l3::compare", "h_tlfu::r2l3::step_increment_hashed", "h_tlfu::r2
 add(["h_tlfu::r2l3::step_increment", "h_tlfu::r2l3::single_key", "h_tlfu::r2l3::batch", "h_tlfu::r2l3::clone_step", "h_tlfu::r4l7::"],
     ["C11", "C05", "C16"], "thorough", 3,
     "std build: remaining TinyLFU harnesses at 4 counters per row and all of them at 8 counters per row", mem=10, cfg="std", tmul=2)
+
+# ---- C17 differential family ---------------------------------------------------------------------
+add(["h_misc::order::purge_c2n2", "h_misc::order::resize_c2n2"], ["C17"], "quick", 4,
+    "two RawLRU<u8,u8> (cap 2, 2 entries, symbolic keys, logging callbacks) built by the same history; purge / resize(any "
+    "usize) applied to both under independent index iteration orders: results, states and callback logs equal", mem=6)
+add(["h_misc::order::clone_c2n2", "h_misc::order::purge_c3n3", "h_misc::order::resize_c3n3"], ["C17"], "thorough", 4,
+    "differential family: clone+put at cap 2; purge / resize at cap 3 with 3 entries", mem=10, tmul=2)
